@@ -75,11 +75,15 @@ Class(tl, first) ==
 RECURSIVE Run(_, _, _)
 Run(ls, i, rules) ==
     IF i > Len(ls) THEN [ok |-> TRUE, rules |-> rules, why |-> "ok"]
-    ELSE LET tl == Trim(ls[i])
-             c  == Class(tl, rules = <<>>)
-         IN IF c \in {"html", "binary"} THEN [ok |-> FALSE, rules |-> rules, why |-> c]
-            ELSE Run(ls, i + 1, IF c = "rule" THEN Append(rules, tl) ELSE rules)
-Parse(t) == Run(Lines(t), 1, <<>>)
+    ELSE CHOOSE r \in {IF c \in {"html", "binary"}
+                       THEN [ok |-> FALSE, rules |-> rules, why |-> c]
+                       ELSE Run(ls, i + 1, IF c = "rule" THEN Append(rules, tl) ELSE rules)
+                       : tl \in {Trim(ls[i])}, c \in {Class(Trim(ls[i]), rules = <<>>)}} : TRUE
+\* (A value that is used more than once is bound by a quantifier over a
+\* singleton set instead of a LET: TLC evaluates bound variables once, LET
+\* definitions on every use - the difference is a factor of 30 on the texts
+\* of trace validation.)
+Parse(t) == CHOOSE p \in {Run(ls, 1, <<>>) : ls \in {Lines(t)}} : TRUE
 
 \* Where the statement is silent the outcome is a SET:
 \*  - a control byte inside a comment ("binary content"? the line is dropped
@@ -88,9 +92,7 @@ Parse(t) == Run(Lines(t), 1, <<>>)
 \*  - a line longer than a line buffer
 \* may be rejected, or treated as the reference parse treats them.
 Soft(t) ==
-    LET ls == Lines(t) IN
-    \E i \in DOMAIN ls :
-        LET tl == Trim(ls[i]) IN
+    \E ls \in {Lines(t)} : \E i \in DOMAIN ls : \E tl \in {Trim(ls[i])} :
         \/ Has(ls[i], {"XL"})
         \/ tl # <<>> /\ Head(tl) \in Comment /\ Has(tl, {"BIN", "VT"})
         \/ tl # <<>> /\ Head(tl) = "HTML"
@@ -99,10 +101,10 @@ Fail      == [ok |-> FALSE, rules |-> <<>>]
 Ok(rules) == [ok |-> TRUE, rules |-> rules]
 
 \* The admissible outcomes of parsing t.
-Admissible(t) ==
-    LET p == Parse(t) IN
+AdmissibleOf(p, t) ==
     IF ~p.ok THEN {Fail}
     ELSE {Ok(p.rules)} \cup (IF Soft(t) THEN {Fail} ELSE {})
+Admissible(t) == UNION {AdmissibleOf(p, t) : p \in {Parse(t)}}
 
 ------------------------------------------------------------------------------
 \* The stored form, the rule count and the checksum of a sequence of rules.
@@ -125,8 +127,8 @@ Sum(rules)    == Flat(rules, <<>>)
 \* or anything to trim) to the same rules, hence same Count, same Sum, and
 \* Normal(Normal(t)) = Normal(t).
 FixedPoint(t) ==
-    LET p == Parse(t) IN
-    p.ok => LET q == Parse(Normal(p.rules)) IN
+    \A p \in {Parse(t)} :
+    p.ok => \A q \in {Parse(Normal(p.rules))} :
             /\ q.ok
             /\ q.rules = p.rules
             /\ Count(q.rules) = Count(p.rules)
